@@ -93,6 +93,22 @@ theorem unreadable_always_rejected (policy : Policy) (authn : Option Authn) :
     gate .unreadable policy authn = .reject := by
   simp [gate]
 
+/-- **Completeness of the gate**: a request carrying the token of a configured pair passes, on every
+connection (whatever its SNI policy) - configured clients are never turned away by the gate -/
+theorem configured_client_passes (clients : List Creds.Client) (c : Creds.Client) (hc : c ∈ clients) (policy : Policy) :
+    gate (.basic (Creds.credToken c.user c.pass)) policy (some (registryAuthn clients)) =
+      .pass (some (.proxyBasic (Creds.credToken c.user c.pass))) := by
+  have h : (registryAuthn clients).accepts (.proxyBasic (Creds.credToken c.user c.pass)) = true :=
+    (registry_accepts_iff clients _).2 ⟨_, rfl, c, hc, rfl⟩
+  cases policy <;> simp [gate, h]
+
+/-- **A presented token is what counts**: a request whose Basic token the authenticator rejects is
+rejected even on a connection whose SNI credentials were accepted - accepted connection-level
+credentials are no fallback for a wrong header -/
+theorem wrong_token_rejected_on_authenticated_connection (a : Authn) (t : List Char) (policy : Policy)
+    (h : a.accepts (.proxyBasic t) = false) : gate (.basic t) policy (some a) = .reject := by
+  cases policy <;> simp [gate, h]
+
 example : authInfo (some [66, 101, 97, 114, 101, 114, 32, 120]) = .unreadable := by decide  -- "Bearer x"
 example : authInfo (some [98, 97, 115, 105, 99, 32, 100, 84, 112, 119]) = .unreadable := by decide  -- "basic dTpw"
 example : authInfo (some [66, 97, 115, 105, 99, 32, 0xff]) = .unreadable := by decide
